@@ -45,9 +45,10 @@ EOF
 }
 for c in pp map gen; do
   wf MC_wf_$c.cfg        $c 3 2 "$K6"   1 OptsCore TRUE TRUE TRUE TRUE none Spec Settles        # quick
-  wf MC_wf_${c}_full.cfg $c 3 2 "$KALL" 2 OptsAll  TRUE TRUE TRUE TRUE none Spec Settles        # thorough
-  wf MC_wf_${c}_wide.cfg $c 4 3 '{"err", "skip", "eof"}' 2 OptsCont4 TRUE TRUE TRUE TRUE none Spec Settles
-  wf MC_wf_${c}_live.cfg $c 3 2 "$K6"   2 OptsCore TRUE TRUE TRUE TRUE none LiveSpec Terminates
+  wf MC_wf_${c}_full.cfg  $c 3 2 "$K6"   2 OptsAll  TRUE TRUE TRUE TRUE none Spec Settles       # thorough: pairs of failures
+  wf MC_wf_${c}_kinds.cfg $c 3 2 "$KALL" 1 OptsAll  TRUE TRUE TRUE TRUE none Spec Settles       # thorough: every kind
+  wf MC_wf_${c}_wide.cfg  $c 4 3 '{"err", "eof"}' 2 OptsCont4 TRUE TRUE TRUE TRUE none Spec Settles
+  wf MC_wf_${c}_live.cfg  $c 3 2 "$K6"   2 OptsCore TRUE TRUE TRUE TRUE none LiveSpec Terminates
   # as pinned: abort never cancels the group -> the other workers consume the input
   wf MC_wf_${c}_asis_abort.cfg $c 5 2 '{"err"}' 1 OptsAbort FALSE FALSE TRUE TRUE none Spec Settles
 done
